@@ -2,5 +2,6 @@
 # Build the framework from files on disk only (offline): regenerate coq/gen from /repo,
 # then a full .vo build of the Coq development.
 set -e
-cd /verif
+D="$(cd "$(dirname "$0")" && pwd)"
+cd "$D"
 exec /venv/bin/python tools/setup.py
